@@ -158,30 +158,56 @@ var dictProof = &core.Check{Name: "c18/dict", Quick: 1200, Thorough: 100000, Fn:
 		return fmt.Errorf("HARNESS: %v", err)
 	}
 	data := ref.SerializeBOC([]*ref.RCell{root}, ref.BocVariant{})
-	load := func() (*boc.Cell, *boc.MerkleProver, error) {
+	// The dictionary as the caller holds it when the prover is made: fresh from the parser, or READ before -
+	// decoded with tlb.Unmarshal to learn its keys, or walked so that the read cursors of its cells stand
+	// anywhere. ProveKeyInHashmap reads from the root's cursor, so the root is reset (ResetCounters is not
+	// recursive: the cells below keep their cursors) - before the prover is made, or only after.
+	readHow := ""
+	load := func(label string) (*boc.Cell, *boc.MerkleProver, error) {
 		cells, err := boc.DeserializeBoc(data)
 		if err != nil {
 			return nil, nil, err
 		}
+		readHow = "dictionary not read before"
+		if c.Intn(label+".decode", 3) == 0 && decodeDict(cells[0], n) {
+			readHow = "dictionary decoded with tlb.Unmarshal before the prover was made"
+			c.Class("dictionary decoded with tlb.Unmarshal before the prover is made")
+		} else if how := readTree(c, label+".read", cells[0]); how != "tree not read" {
+			readHow = how
+			c.Class("dictionary cells read before the prover is made")
+		}
+		late := c.Intn(label+".reset.late", 3) == 0
+		if !late {
+			cells[0].ResetCounters()
+		}
 		p, err := boc.NewMerkleProver(cells[0])
+		if late {
+			readHow += ", root reset after NewMerkleProver"
+			cells[0].ResetCounters()
+		}
 		return cells[0], p, err
 	}
 	// a present key
 	e := entries[c.Choose("pick", len(entries))]
-	cell, prover, err := load()
+	cell, prover, err := load("load")
 	if err != nil {
 		return fmt.Errorf("NewMerkleProver: %v", err)
 	}
-	val, proof, err := tlb.ProveKeyInHashmap[tlb.Uint32](prover, cell, gen.BitString(e.Key))
+	firstRead := readHow
+	c.Note("read", firstRead)
+	keyBS, keyHow, keyKind := keyCarrier(c, "key", e.Key)
+	c.Note("key carrier", keyHow)
+	c.Class("requested key in: " + keyKind)
+	val, proof, err := tlb.ProveKeyInHashmap[tlb.Uint32](prover, cell, keyBS)
 	if err != nil {
-		return fmt.Errorf("ProveKeyInHashmap for a present key %s (dictionary of %d entries, %d-bit keys): %v", e.Key, len(entries), n, err)
+		return fmt.Errorf("ProveKeyInHashmap for a present key %s (dictionary of %d entries, %d-bit keys; key passed as %s; %s): %v", e.Key, len(entries), n, keyHow, firstRead, err)
 	}
 	if uint64(val) != e.Value.Bits.Uint(0, 32) {
 		return fmt.Errorf("ProveKeyInHashmap returned value %d for key %s, the dictionary holds %d", val, e.Key, e.Value.Bits.Uint(0, 32))
 	}
 	mp, npruned, err := validateProof(proof, root)
 	if err != nil {
-		return fmt.Errorf("proof for key %s: %v", e.Key, err)
+		return fmt.Errorf("proof for key %s (%s): %v", e.Key, firstRead, err)
 	}
 	// the value can be decoded from the proof: with the reference dictionary decoder on the unpruned path ...
 	if got, ok := lookupInPruned(mp.Refs[0], e.Key); !ok || !got.Equal(e.Value.Bits) {
@@ -206,12 +232,14 @@ var dictProof = &core.Check{Name: "c18/dict", Quick: 1200, Thorough: 100000, Fn:
 		if len(body) != 1 {
 			return fmt.Errorf("tongo reads its proof cell with %d references", len(body))
 		}
+		readTree(c, "reprove.read", body[0])
 		prover2, err := boc.NewMerkleProver(body[0])
 		if err != nil {
 			return fmt.Errorf("NewMerkleProver on the dictionary inside a proof: %v", err)
 		}
 		body[0].ResetCounters()
-		val2, proof2, err := tlb.ProveKeyInHashmap[tlb.Uint32](prover2, body[0], gen.BitString(e.Key))
+		key2, _, _ := keyCarrier(c, "reprove.key", e.Key)
+		val2, proof2, err := tlb.ProveKeyInHashmap[tlb.Uint32](prover2, body[0], key2)
 		if err != nil {
 			return fmt.Errorf("ProveKeyInHashmap for key %s on the dictionary inside its own proof: %v", e.Key, err)
 		}
@@ -237,10 +265,11 @@ var dictProof = &core.Check{Name: "c18/dict", Quick: 1200, Thorough: 100000, Fn:
 	// one prover used for a sequence of requests: a present key, an absent key (the walk is abandoned with
 	// an error), another present key. Every returned proof must stand on its own.
 	if len(entries) >= 2 {
-		cellS, proverS, err := load()
+		cellS, proverS, err := load("loadS")
 		if err != nil {
 			return err
 		}
+		readS := readHow
 		e2 := entries[c.Choose("pick2", len(entries))]
 		absent := e.Key.Clone()
 		absent[c.Choose("absent.flip", n)] = !absent[c.Choose("absent.flip2", n)]
@@ -254,22 +283,23 @@ var dictProof = &core.Check{Name: "c18/dict", Quick: 1200, Thorough: 100000, Fn:
 				continue
 			}
 			cellS.ResetCounters()
-			v, pr, perr := tlb.ProveKeyInHashmap[tlb.Uint32](proverS, cellS, gen.BitString(st.Key))
+			keyS, keySHow, _ := keyCarrier(c, "reuse.key", st.Key)
+			v, pr, perr := tlb.ProveKeyInHashmap[tlb.Uint32](proverS, cellS, keyS)
 			if si == 1 {
 				if perr == nil {
-					return fmt.Errorf("reused prover: a proof was produced for the absent key %s", st.Key)
+					return fmt.Errorf("reused prover: a proof was produced for the absent key %s (passed as %s)", st.Key, keySHow)
 				}
 				continue
 			}
 			if perr != nil {
-				return fmt.Errorf("reused prover, request %d (key %s): %v", si+1, st.Key, perr)
+				return fmt.Errorf("reused prover, request %d (key %s passed as %s; %s): %v", si+1, st.Key, keySHow, readS, perr)
 			}
 			if uint64(v) != st.Value.Bits.Uint(0, 32) {
 				return fmt.Errorf("reused prover, request %d: value %d for key %s, the dictionary holds %d", si+1, v, st.Key, st.Value.Bits.Uint(0, 32))
 			}
 			mp2, _, verr := validateProof(pr, root)
 			if verr != nil {
-				return fmt.Errorf("reused prover, request %d (key %s): %v", si+1, st.Key, verr)
+				return fmt.Errorf("reused prover, request %d (key %s; %s): %v", si+1, st.Key, readS, verr)
 			}
 			if got, ok := lookupInPruned(mp2.Refs[0], st.Key); !ok || !got.Equal(st.Value.Bits) {
 				return fmt.Errorf("reused prover, request %d: key %s cannot be read from its proof (an earlier request on the same prover proved %s, then the absent key %s was asked for)", si+1, st.Key, e.Key, absent)
@@ -290,20 +320,21 @@ var dictProof = &core.Check{Name: "c18/dict", Quick: 1200, Thorough: 100000, Fn:
 		if present {
 			continue
 		}
-		cell, prover, err := load()
+		cell, prover, err := load("loadA")
 		if err != nil {
 			return err
 		}
+		keyA, keyAHow, _ := keyCarrier(c, "absent.key", k)
 		var perr error
 		var aproof []byte
 		if p := core.Protect(func() error {
-			_, aproof, perr = tlb.ProveKeyInHashmap[tlb.Uint32](prover, cell, gen.BitString(k))
+			_, aproof, perr = tlb.ProveKeyInHashmap[tlb.Uint32](prover, cell, keyA)
 			return nil
 		}); p != nil {
-			return fmt.Errorf("ProveKeyInHashmap panicked for an absent key %s: %v", k, p)
+			return fmt.Errorf("ProveKeyInHashmap panicked for an absent key %s (passed as %s): %v", k, keyAHow, p)
 		}
 		if perr == nil {
-			return fmt.Errorf("ProveKeyInHashmap produced a proof (%d bytes) for key %s, which is not in the dictionary", len(aproof), k)
+			return fmt.Errorf("ProveKeyInHashmap produced a proof (%d bytes) for key %s (passed as %s), which is not in the dictionary", len(aproof), k, keyAHow)
 		}
 		c.Class("absent key refused")
 	}
@@ -426,9 +457,20 @@ var cursorProof = &core.Check{Name: "c18/cursor", Quick: 1500, Thorough: 120000,
 		}
 		return err
 	}
+	// the tree may have been read before the prover is made (read cursors of its cells anywhere, the root is
+	// reset or not): it is the same tree
+	readHow := readTree(c, "read", t)
+	if readHow != "tree not read" {
+		if c.Bool("read.reset") {
+			t.ResetCounters()
+			readHow += ", root reset"
+		}
+		c.Class("tree read before the prover is made")
+	}
+	c.Note("read", readHow)
 	prover, err := boc.NewMerkleProver(t)
 	if err != nil {
-		return fmt.Errorf("NewMerkleProver: %v", err)
+		return fmt.Errorf("NewMerkleProver (%s): %v", readHow, err)
 	}
 	cur := prover.Cursor()
 	np := c.Intn("prunes", 5)
@@ -478,13 +520,20 @@ var cursorProof = &core.Check{Name: "c18/cursor", Quick: 1500, Thorough: 120000,
 		wantPruned[fmt.Sprint(h.path)] = true
 		pruned++
 	}
+	// ... or is read while the prover exists
+	if c.Intn("read.late", 4) == 0 {
+		if how := readTree(c, "read2", t); how != "tree not read" {
+			readHow += "; " + strings.Replace(how, "before", "between NewMerkleProver and CreateProof", 1)
+			c.Class("tree read between NewMerkleProver and CreateProof")
+		}
+	}
 	proof, err := prover.CreateProof(cur)
 	if err != nil {
-		return fmt.Errorf("CreateProof: %v", err)
+		return fmt.Errorf("CreateProof (%s): %v", readHow, err)
 	}
 	_, n, err := validateProof(proof, root)
 	if err != nil {
-		return fmt.Errorf("proof with %d pruned paths: %v", pruned, err)
+		return fmt.Errorf("proof with %d pruned paths (%s): %v", pruned, readHow, err)
 	}
 	// a proof can be narrowed further: the pruned tree of the first proof is the source of a second prover,
 	// positions are pruned in it (possibly positions that already are pruned branches), and the second
@@ -500,9 +549,10 @@ var cursorProof = &core.Check{Name: "c18/cursor", Quick: 1500, Thorough: 120000,
 		}
 		rrFirst, _ := ref.ParseBOC(proof)
 		bodyRef := rrFirst[0].Refs[0]
+		read2 := readTree(c, "narrow.read", body)
 		prover2, perr := boc.NewMerkleProver(body)
 		if perr != nil {
-			return fmt.Errorf("NewMerkleProver on the pruned tree of a proof: %v", perr)
+			return fmt.Errorf("NewMerkleProver on the pruned tree of a proof (%s): %v", read2, perr)
 		}
 		cur2 := prover2.Cursor()
 		pr2 := 0
@@ -538,7 +588,7 @@ var cursorProof = &core.Check{Name: "c18/cursor", Quick: 1500, Thorough: 120000,
 		}
 		// header depth, every pruned branch (old ones that stay and new ones) and the declared level masks
 		if _, _, verr := validateProof(proof2, root); verr != nil {
-			return fmt.Errorf("narrowed proof (first proof pruned %d positions, %d more positions pruned in its body): %v", pruned, pr2, verr)
+			return fmt.Errorf("narrowed proof (first proof pruned %d positions, %d more positions pruned in its body; %s): %v", pruned, pr2, read2, verr)
 		}
 		c.Class("narrowed proof")
 	}
